@@ -28,7 +28,7 @@ def mk_state(cfgname, n, ctx, keep, kepler_uf=False, var=False, nan_ok=()):
     I.concrete_env = False
     tab = P.read_table(I); opts = P.documented_options()
     locs = P.locations(I, sim, tab, opts)
-    sy = P.symbolise(I, sim, locs, keep)
+    sy = P.symbolise(I, sim, locs, set(keep) | {lc.label for lc in locs if lc.label.startswith('count:')})     # element counters stay concrete (structure)
     for lab in nan_ok:
         if lab in sy and z3.is_expr(sy[lab][0]): dom.nan_ok.add(sy[lab][0].get_id())
     return I, sim, tab, opts, locs, sy
@@ -280,7 +280,7 @@ def all_labels(cfgname, n):
     sim = P.build_engine_state(I, P.CONFIGS[cfgname], n)
     locs = P.locations(I, sim, P.read_table(I), P.documented_options())
     tab = {e['name']: e['dtype'] for e in P.read_table(I)}
-    return [l.label for l in locs if l.field not in KEEP0 and not l.option], {l.label: tab.get(l.field, '?') for l in locs}
+    return [l.label for l in locs if l.field not in KEEP0 and not l.option and not l.label.startswith('count:')], {l.label: tab.get(l.field, '?') for l in locs}
 
 def _labels_job(c): return all_labels(c, 2)
 
